@@ -191,3 +191,18 @@ Theorem C13_bytes_roundtrip_instance :
   decode_core_index (print_canonical (core_index_json ex_core_m)) = Some ex_core_m.
 Proof. exact ex_round_trip. Qed.
 Print Assumptions C13_bytes_roundtrip_instance.
+
+From SV Require Import Resolve.Op Batch.Files Batch.Handler Batch.RoundTrip.
+Local Close Scope Z_scope.
+
+(* a batch whose operations have all expired (F16, repaired): no anchor string, no file, count 0, nothing deferred, and every queued operation is accounted for as expired *)
+Theorem C13_all_expired_batch_prepares_nothing :
+  forall (L : limits) (u : Z) (ops : list qbop),
+         let a := fst (prepare u ops) in
+         let p := snd (prepare u ops) in
+         p_included p = [] ->
+         a = no_anchor /\
+         a_count a = 0%Z /\
+         get_txn_operations L a = None /\ p_additional p = [] /\ Permutation ops (p_expired p).
+Proof. exact prepare_all_expired. Qed.
+Print Assumptions C13_all_expired_batch_prepares_nothing.
